@@ -12,3 +12,4 @@ import AioMySensors.Model.Effects
 import AioMySensors.Model.Handlers
 import AioMySensors.Model.Gateway
 import AioMySensors.Model.Mqtt
+import AioMySensors.Model.Stream
